@@ -607,6 +607,43 @@ func c14Merge(p *chk.Prog, r *chk.Report) {
 			}
 		}
 	}
+	// the merged community list does not depend on the order in which the requests arrived: it is sorted (sets.List
+	// sorts; or an explicit sort before the return)
+	mc := need(x, p, frrPkg, "", "mergeCommunities")
+	if mc != nil {
+		mg := mc.Graph()
+		ok := len(mg.Returns()) > 0
+		for _, rt := range mg.Returns() {
+			rr := retResults(rt)
+			if len(rr) != 1 {
+				ok = false
+				continue
+			}
+			sorted := mc.MatchWith("sets.List(S)", mc.Resolve(rr[0])) != nil
+			if id, isId := ast.Unparen(rr[0]).(*ast.Ident); isId && !sorted {
+				same := mc.IsObj(mc.ObjOf(id))
+				w := mg.MustPass(chk.Site{}, func(n ast.Node) bool { return n == rt.Top }, false, func(n ast.Node) bool {
+					return mc.ContainsPat("sort.Strings(L)", chk.H("L", same))(n) || mc.ContainsPat("slices.Sort(L)", chk.H("L", same))(n)
+				})
+				// nothing is appended after the sort
+				sorted = !w.Found
+				if sorted {
+					for _, ss := range mg.Find(func(n ast.Node) bool {
+						return mc.ContainsPat("sort.Strings(L)", chk.H("L", same))(n) || mc.ContainsPat("slices.Sort(L)", chk.H("L", same))(n)
+					}) {
+						w2 := (&chk.Walk{G: mg, From: ss, Hit: mc.IsAssignPat("L", "append(L, ETC)", chk.H("L", same)), Stop: func(n ast.Node) bool { return n == rt.Top }}).Run()
+						if w2.Found {
+							sorted = false
+						}
+					}
+				}
+			}
+			if !sorted {
+				ok = false
+			}
+		}
+		x.Check("mergeCommunities:sorted", mc.Pos(), ok, "", "the merged community list keeps the order in which the advertisements were merged (argument order of Set, map order of the sessions): the same requests render different configurations and the reloader sees spurious changes")
+	}
 	af := need(x, p, frrPkg, "", "addToAdvertisements")
 	if af != nil {
 		g := af.Graph()
